@@ -79,8 +79,7 @@ EnvMark(e) == Val("env", e, 0, "")
 
 \* ================================================================ tables (association lists in insertion order)
 \* a nil value is a tombstone: the key stays (stable positions), every reader skips it
-RECURSIVE KeyIndex(_, _, _)
-KeyIndex(ks, k, i) == IF i > Len(ks) THEN 0 ELSE IF ks[i] = k THEN i ELSE KeyIndex(ks, k, i + 1)
+KeyIndex(ks, k, i) == SeqIndexOf(ks, k)        \* i is always 1 (LuaStr!SeqIndexOf: first index with ks[i] = k, or 0)
 EmptyTable == [ks |-> <<>>, vs |-> <<>>, mt |-> 0]
 RawGetT(t, k0) == LET k == NormKey(k0) IN LET i == KeyIndex(t.ks, k, 1) IN IF i = 0 THEN Nil ELSE t.vs[i]
 HasKeyT(t, k0) == KeyIndex(t.ks, NormKey(k0), 1) # 0
